@@ -42,6 +42,13 @@ CDecReason == IF E.err # "" THEN "decode error"
               ELSE IF E.nout # cur.cfg.nin THEN "decoded frame count"
               ELSE IF E.out # cur.src \/ E.outsha # cur.cfg.srcsha THEN "frames differ" ELSE "ok"
 
+\* third-party fixture (C06): a codestream made by another encoder from a raw image that is logged next to the output
+FixReason == IF E.err # "" THEN "third-party codestream rejected"
+             ELSE IF E.nout # 1 THEN "third-party codestream gives another frame count"
+             ELSE IF E.outlen # E.srclen THEN "third-party codestream decodes to another size"
+             ELSE IF E.outsha # E.srcsha \/ (~E.big /\ E.out # E.src) THEN "third-party codestream decodes to other samples"
+             ELSE "ok"
+
 Reason == CASE E.ev = "enc" -> EncReason [] E.ev = "dec" -> DecReason
             [] E.ev = "cenc" -> CEncReason [] E.ev = "cdec" -> CDecReason [] OTHER -> "ok"
 
@@ -50,6 +57,12 @@ Step ==
   /\ l <= Len(Tr) /\ l' = l + 1
   /\ IF E.ev = "reset" THEN mode' = "run" /\ cur' = [prop |-> E.prop, rel |-> E.rel, cfg |-> <<>>, src |-> <<>>] /\ nacc' = nacc
      ELSE IF mode = "skip" THEN UNCHANGED <<mode, cur, nacc>>
+     ELSE IF E.ev = "fixdec"
+     THEN LET r == FixReason IN
+          IF r = "ok" THEN nacc' = nacc + 1 /\ UNCHANGED <<mode, cur>>
+          ELSE /\ PrintT("@@REJECT|" \o ToString(E.scn) \o "|" \o ToString(E.k) \o "|C06/fixture/" \o r \o "/" \o E.name \o "-" \o E.kind
+                          \o "|" \o ToString(E.info) \o " err=" \o E.err)
+               /\ UNCHANGED <<mode, cur, nacc>>
      ELSE LET r == Reason IN
           IF r = "ok"
           THEN /\ mode' = mode /\ nacc' = nacc + (IF E.ev \in {"dec", "cdec"} THEN 1 ELSE 0)
